@@ -30,6 +30,9 @@ func RenderDOCX(d Doc) Rendered {
 		case "TBL":
 			docxTable(&b, blk.Tb, cnt, i)
 		default:
+			if blk.K == "LI" && blk.How == "emp" { // an empty numbered paragraph of this level first
+				b.WriteString("<w:p>" + docxPPr(blk, d.Sheet) + "</w:p>")
+			}
 			b.WriteString("<w:p>")
 			b.WriteString(docxPPr(blk, d.Sheet))
 			for _, ch := range blk.Ch {
@@ -108,8 +111,11 @@ func docxPPr(blk Block, sheet []Style) string {
 		return fmt.Sprintf(`<w:pPr><w:pStyle w:val="%s"/></w:pPr>`, docxSheetID(blk.Sty, sheet))
 	case "LI":
 		numID := 1
-		if blk.Num == "decimal" {
+		switch blk.Num {
+		case "decimal":
 			numID = 2
+		case "decimalR": // a second instance of the decimal definition that restarts at 1
+			numID = 3
 		}
 		return fmt.Sprintf(`<w:pPr><w:pStyle w:val="ListParagraph"/><w:numPr><w:ilvl w:val="%d"/><w:numId w:val="%d"/></w:numPr></w:pPr>`, blk.Lvl, numID)
 	}
@@ -278,7 +284,8 @@ func docxNumbering() string {
 		}
 		b.WriteString(`</w:abstractNum>`)
 	}
-	b.WriteString(`<w:num w:numId="1"><w:abstractNumId w:val="0"/></w:num><w:num w:numId="2"><w:abstractNumId w:val="1"/></w:num>`)
+	b.WriteString(`<w:num w:numId="1"><w:abstractNumId w:val="0"/></w:num><w:num w:numId="2"><w:abstractNumId w:val="1"/></w:num>` +
+		`<w:num w:numId="3"><w:abstractNumId w:val="1"/><w:lvlOverride w:ilvl="0"><w:startOverride w:val="1"/></w:lvlOverride></w:num>`)
 	b.WriteString(`</w:numbering>`)
 	return b.String()
 }
